@@ -231,6 +231,201 @@ Proof.
       split; [reflexivity|]. left. repeat split; reflexivity.
 Qed.
 
+(* ------------------------------------------------------------------ phased allocation (mj_makeY, mj_makeAR) *)
+Definition sreq_ok (gs : bool) (r : Z * Z) : Prop :=
+  0 <= fst r < W /\ pow2 (snd r) /\ size_ok gs (fst r) (snd r).
+Definition covers (tested : list nat) (n : nat) : Prop := forall i, (i < n)%nat -> In i tested.
+Definition phase_ok (gs ga : bool) (na : Z) (ph : phase) : Prop :=
+  match ph with (sreqs, areqs, tested) =>
+    Forall (sreq_ok gs) sreqs /\ Forall (req_ok ga na) areqs /\ covers tested (length areqs) end.
+
+(* what the steps of a phase keep *)
+Definition keeps (s s' : st) : Prop :=
+  base s' = base s /\ narena s' = narena s /\ pbase s' = pbase s /\ parena s <= parena s'.
+
+Lemma keeps_refl : forall s, keeps s s.
+Proof. intros. unfold keeps. repeat split; lia. Qed.
+Lemma keeps_trans : forall a b c, keeps a b -> keeps b c -> keeps a c.
+Proof. unfold keeps. intros a b c [A1 [A2 [A3 A4]]] [B1 [B2 [B3 B4]]]. repeat split; try congruence; lia. Qed.
+
+Lemma stack_all_spec : forall gs gt reqs s g,
+  Inv s g [] -> Forall (sreq_ok gs) reqs ->
+  match stack_all gs gt s reqs with
+  | None => True
+  | Some s' => exists bl, allGB bl /\ Inv s' (bl ++ g) [] /\ keeps s s' /\ parena s' = parena s
+  end.
+Proof.
+  intros gs gt reqs. induction reqs as [|[b a] r IH]; intros s g HI Hr; cbn [stack_all].
+  - exists []. split; [constructor|]. split; [assumption|]. split; [apply keeps_refl|reflexivity].
+  - inversion Hr as [|x l [Hb [Hal Hok]] Hrs]; subst. cbn [fst snd] in *.
+    destruct (Z.eq_dec b 0) as [->|Hnz].
+    + rewrite SA_zero. apply IH; assumption.
+    + destruct (SA_step gs gt s g [] b a HI Hal ltac:(lia) Hok) as [H|[H _]]; cbv zeta in H.
+      * destruct H as [E [_ [_ [_ [_ HI']]]]]. rewrite E.
+        specialize (IH _ _ HI' Hrs).
+        destruct (stack_all gs gt (sa_state s (adown (Top s - b) a)) r) as [s'|]; [|exact I].
+        destruct IH as [bl [Hbl [HI2 [Hk Hp]]]].
+        exists (bl ++ [GB (adown (Top s - b) a) b]). split; [apply allGB_app; [assumption|repeat constructor]|].
+        split; [rewrite <- app_assoc; exact HI2|].
+        split; [eapply keeps_trans; [|exact Hk]; unfold keeps, sa_state, set_stack; simpl; repeat split; lia|].
+        rewrite Hp. reflexivity.
+      * rewrite H. exact I.
+Qed.
+
+Lemma alloc_all_spec : forall ga reqs s g,
+  Inv s g [] -> Forall (req_ok ga (narena s)) reqs ->
+  Inv (snd (alloc_all ga s reqs)) g [] /\ keeps s (snd (alloc_all ga s reqs)) /\
+  pstack (snd (alloc_all ga s reqs)) = pstack s.
+Proof.
+  intros ga reqs. induction reqs as [|[b a] r IH]; intros s g HI Hr; cbn [alloc_all].
+  - simpl. split; [assumption|]. split; [apply keeps_refl|reflexivity].
+  - inversion Hr as [|x l Hr1 Hrs]; subst.
+    destruct (AA_cases ga s g (b, a) HI Hr1) as [[p [s1 [E [Hlo [Hnz [Hend [Htop [Hfr [Hms [Htl HI1]]]]]]]]]]|[E _]];
+      cbn [fst snd] in *; rewrite E.
+    + destruct Hfr as [F1 [F2 [F3 [F4 [F5 F6]]]]].
+      assert (Hrs' : Forall (req_ok ga (narena s1)) r) by (rewrite F2; assumption).
+      destruct (IH s1 g HI1 Hrs') as [A [B C]].
+      destruct (alloc_all ga s1 r) as [ps s2]. cbn [snd] in *.
+      split; [assumption|]. split; [|congruence].
+      eapply keeps_trans; [|exact B]. unfold keeps. repeat split; try assumption.
+    + destruct (IH s g HI Hrs) as [A [B C]].
+      destruct (alloc_all ga s r) as [ps s2]. cbn [snd] in *. tauto.
+Qed.
+
+Lemma alloc_all_length : forall ga reqs s, length (fst (alloc_all ga s reqs)) = length reqs.
+Proof.
+  intros ga reqs. induction reqs as [|[b a] r IH]; intros s; cbn [alloc_all]; [reflexivity|].
+  destruct (arena_alloc ga s b a) as [[| p | |] s1]; specialize (IH s1);
+    destruct (alloc_all ga s1 r) as [ps s2]; simpl in *; congruence.
+Qed.
+
+Lemma tested_all : forall tested ps,
+  covers tested (length ps) -> test_fails tested ps = false -> has_null ps = false.
+Proof.
+  intros tested ps Hc Ht. unfold has_null. destruct (existsb (fun p => p =? 0) ps) eqn:E; [|reflexivity].
+  apply existsb_exists in E. destruct E as [p [Hin Hp]]. apply Z.eqb_eq in Hp. subst p.
+  destruct (In_nth _ _ 1 Hin) as [i [Hi Hn]].
+  assert (Hx : test_fails tested ps = true).
+  { unfold test_fails. apply existsb_exists. exists i. split; [apply Hc; assumption|]. rewrite Hn. reflexivity. }
+  congruence.
+Qed.
+
+Lemma has_null_app : forall a b, has_null (a ++ b) = has_null a || has_null b.
+Proof. intros. unfold has_null. apply existsb_app. Qed.
+
+Lemma run_phases_spec : forall gs gt ga phs s g acc,
+  Inv s g [] -> Forall (phase_ok gs ga (narena s)) phs -> has_null acc = false ->
+  match run_phases gs gt ga phs s acc with
+  | PNull => False
+  | PErr => True
+  | PFail s' => exists bl, allGB bl /\ Inv s' (bl ++ g) [] /\ keeps s s'
+  | PDone acc' s' => exists bl, allGB bl /\ Inv s' (bl ++ g) [] /\ keeps s s' /\ has_null acc' = false
+  end.
+Proof.
+  intros gs gt ga phs. induction phs as [|[[sreqs areqs] tested] r IH]; intros s g acc HI Hp Hacc; cbn [run_phases].
+  - exists []. split; [constructor|]. split; [assumption|]. split; [apply keeps_refl|assumption].
+  - inversion Hp as [|x l Hph Hps]; subst. cbn [phase_ok] in Hph. destruct Hph as [Hs [Ha Hc]].
+    pose proof (stack_all_spec gs gt sreqs s g HI Hs) as H1.
+    destruct (stack_all gs gt s sreqs) as [s1|]; [|exact I].
+    destruct H1 as [bl [Hbl [HI1 [Hk1 Hpa1]]]].
+    assert (Ha' : Forall (req_ok ga (narena s1)) areqs) by (destruct Hk1 as [_ [-> _]]; assumption).
+    destruct (alloc_all_spec ga areqs s1 (bl ++ g) HI1 Ha') as [HI2 [Hk2 Hps2]].
+    pose proof (alloc_all_length ga areqs s1) as Hlen.
+    destruct (alloc_all ga s1 areqs) as [ps s2]. cbn [fst snd] in *.
+    destruct (test_fails tested ps) eqn:Et.
+    + exists bl. split; [assumption|]. split; [assumption|]. eapply keeps_trans; eassumption.
+    + rewrite (tested_all tested ps ltac:(rewrite Hlen; assumption) Et).
+      assert (Hps' : Forall (phase_ok gs ga (narena s2)) r).
+      { destruct Hk1 as [_ [E1 _]]. destruct Hk2 as [_ [E2 _]]. rewrite E2, E1. assumption. }
+      assert (Hacc' : has_null (acc ++ ps) = false).
+      { rewrite has_null_app, Hacc. simpl. apply (tested_all tested ps); [rewrite Hlen; assumption|assumption]. }
+      specialize (IH s2 (bl ++ g) (acc ++ ps) HI2 Hps' Hacc').
+      destruct (run_phases gs gt ga r s2 (acc ++ ps)) as [acc' s3|s3| |]; try assumption.
+      * destruct IH as [bl' [Hbl' [HI3 [Hk3 Hn]]]]. exists (bl' ++ bl).
+        split; [apply allGB_app; assumption|]. split; [rewrite <- app_assoc; assumption|].
+        split; [eapply keeps_trans; [eapply keeps_trans|]; eassumption|assumption].
+      * destruct IH as [bl' [Hbl' [HI3 Hk3]]]. exists (bl' ++ bl).
+        split; [apply allGB_app; assumption|]. split; [rewrite <- app_assoc; assumption|].
+        eapply keeps_trans; [eapply keeps_trans|]; eassumption.
+Qed.
+
+(* mj_makeY / mj_makeAR(dense): with a NULL test that looks at every pointer of each group the
+   function never writes through NULL; it either raises mju_error (stack), or returns with the
+   stack restored and either all arrays allocated or the failure state of the other sites *)
+Theorem alloc_dual_thm : forall gs gt ga csz phs c g,
+  CInv csz c g -> 0 < csz -> Forall (phase_ok gs ga (narena (ms c))) phs ->
+  alloc_dual gs gt ga csz phs c = ErrExit c \/
+  exists ret c', alloc_dual gs gt ga csz phs c = Done ret c' /\ CInv csz c' g /\
+    ncon c' = ncon c /\ pstack (ms c') = pstack (ms c) /\ pbase (ms c') = pbase (ms c) /\
+    ((ret = 1 /\ has_null (dualp c') = false /\ nefc c' = nefc c /\ efcp c' = efcp c /\ islp c' = islp c /\
+      warns c' = warns c)
+     \/ (ret = 0 /\ parena (ms c') = ncon c * csz /\ all_null (efcp c') /\ all_null (islp c') /\
+         all_null (dualp c') /\ nefc c' = 0 /\ nisland c' = 0 /\
+         warns c' = (WARN_CNSTRFULL, narena (ms c)) :: warns c)).
+Proof.
+  intros gs gt ga csz phs c g HC Hcs Hp. pose proof HC as [HI Hn Hc].
+  pose proof (inv_wf _ _ _ HI) as Hwf. pose proof Hwf as [H1 H2 H3 H4 H5 H6].
+  unfold alloc_dual.
+  destruct (M_step gs (ms c) g [] HI) as [HM|[HM _]]; cbv zeta in HM; [|rewrite HM; left; reflexivity].
+  destruct HM as [EM [_ [_ [_ HI1]]]]. rewrite EM.
+  set (fa := adown (Top (ms c) - FRAME) FALIGN) in *.
+  set (s1 := mark_state (ms c) fa) in *.
+  assert (Hp1 : Forall (phase_ok gs ga (narena s1)) phs) by exact Hp.
+  pose proof (run_phases_spec gs gt ga phs s1 _ [] HI1 Hp1 eq_refl) as HR.
+  destruct (run_phases gs gt ga phs s1 []) as [acc s2|s2| |]; [| |left; reflexivity|contradiction].
+  - (* all arrays allocated *)
+    destruct HR as [bl [Hbl [HI2 [[K1 [K2 [K3 K4]]] Hnn]]]].
+    pose proof (F_step s2 _ [] HI2) as HF. rewrite gpop_skip in HF by assumption. cbn [gpop] in HF.
+    destruct HF as [EF [HT HI3]]. rewrite EF. cbn [snd].
+    right. eexists. eexists. split; [reflexivity|]. cbn [ms ncon nefc nisland efcp islp warns dualp].
+    assert (Eps : pstack (free_state s2 (pbase (ms c)) (Top (ms c))) = pstack (ms c)).
+    { unfold free_state, set_stack. cbn [pstack]. unfold Bot, Top. rewrite K1, K2. unfold s1, mark_state, set_stack. cbn [base narena]. lia. }
+    split. { constructor; [exact HI3|simpl; lia|].
+             cbn [ms ncon]. unfold free_state, set_stack. cbn [parena].
+             unfold s1, mark_state, set_stack in K4. cbn [parena] in K4. lia. }
+    split; [reflexivity|]. split; [exact Eps|]. split; [reflexivity|].
+    left. repeat split; try reflexivity. assumption.
+  - (* a group did not fit *)
+    destruct HR as [bl [Hbl [HI2 [K1 [K2 [K3 K4]]]]]].
+    rewrite (ncon_wrap csz c g HC Hcs).
+    assert (Hp2 : 0 <= ncon c * csz <= parena s2).
+    { unfold s1, mark_state, set_stack in K4. cbn [parena] in K4. split; [apply Z.mul_nonneg_nonneg; lia|lia]. }
+    pose proof (Inv_set_parena _ _ _ HI2 Hp2) as HI2'.
+    pose proof (F_step _ _ [] HI2') as HF. rewrite gpop_skip in HF by assumption. cbn [gpop] in HF.
+    destruct HF as [EF [HT HI3]]. rewrite EF. cbn [snd].
+    right. eexists. eexists. split; [reflexivity|].
+    cbn [clear_efc warn with_ms ms ncon nefc nisland efcp islp warns dualp].
+    split. { constructor; [exact HI3|simpl; lia|simpl; lia]. }
+    split; [reflexivity|].
+    split. { unfold free_state, set_stack, set_parena. cbn [pstack base narena]. unfold Bot, Top. cbn [base narena].
+             rewrite K1, K2. unfold s1, mark_state, set_stack. cbn [base narena]. lia. }
+    split; [reflexivity|].
+    right. split; [reflexivity|]. split; [reflexivity|].
+    split; [apply nulls_all_null|]. split; [apply nulls_all_null|]. split; [apply nulls_all_null|].
+    repeat split; reflexivity.
+Qed.
+
+(* a NULL test that leaves out one pointer of a group (here: the second of two, as if mj_makeY tested
+   efc_Y_rowadr instead of efc_Y_colind): with room for the first array only, the function writes
+   through NULL *)
+Definition wit_d : cl := mkcl (mkst 4096 512 0 400 0 400 400 false []) 0 0 0 [] [] [] [0; 0].
+
+Lemma wit_d_inv : CInv 584 wit_d [].
+Proof.
+  constructor; simpl; try lia.
+  constructor; simpl; try reflexivity; try lia;
+    try (constructor; simpl; try lia; rewrite W_val; lia);
+    unfold Top, Bot, Lim; simpl; lia.
+Qed.
+
+Lemma alloc_dual_refuted :
+  exists c g, CInv 584 c g /\
+    alloc_dual true true true 584 [([], [(64, 8); (32, 4)], [0%nat])] c = NullWrite /\
+    alloc_dual true true true 584 [([], [(64, 8); (32, 4)], [0%nat; 1%nat])] c <> NullWrite.
+Proof.
+  exists wit_d, []. split; [exact wit_d_inv|]. split; [vm_compute; reflexivity|vm_compute; discriminate].
+Qed.
+
 (* pushPairArena with the NULL test on the result: a block inside the arena, or mju_error *)
 Theorem push_pair_fixed_thm : forall ga csz psz pal c g,
   CInv csz c g -> req_ok ga (narena (ms c)) (psz, pal) ->
@@ -254,7 +449,7 @@ Qed.
 
 (* the code before /repo's repair (NULL test on the argument): with fewer free bytes than sizeof(mjcPair) the function
    writes through NULL *)
-Definition wit_c : cl := mkcl (mkst 4096 256 0 240 0 240 240 false []) 0 0 0 [] [] [].
+Definition wit_c : cl := mkcl (mkst 4096 256 0 240 0 240 240 false []) 0 0 0 [] [] [] [].
 
 Lemma wit_c_inv : CInv 584 wit_c [].
 Proof.
